@@ -22,7 +22,7 @@ FAMILIES = ['dyadic', 'nondyadic', 'wide', 'equal', 'withzero']
 
 
 def gen_cases(tier, seed):
-    n = {'quick': 2400, 'thorough': 200000}[tier]
+    n = {'quick': 6000, 'thorough': 200000}[tier]
     out = []
     for k in range(n):
         cs = case_seed(seed, PID, k)
